@@ -201,12 +201,12 @@ def _big_stack():
             pass
 
 
-def run_sharded(binary, lines, workdir, tag, shards=NPROC, timeout=3600, env=None, args=()):
+def run_sharded(binary, lines, workdir, tag, shards=NPROC, timeout=3600, env=None, args=(), per_shard=64):
     """Feeds `lines` to `binary` over `shards` parallel processes; returns the output lines in order."""
     n = len(lines)
     if n == 0:
         return []
-    shards = max(1, min(shards, (n + 63) // 64))
+    shards = max(1, min(shards, (n + per_shard - 1) // per_shard))
     per = (n + shards - 1) // shards
     procs = []
     e = dict(os.environ)
